@@ -1,4 +1,5 @@
 import QuiverModel.Core.Text.Scan
+import QuiverModel.Lemmas.Text.Basic
 /-
 C18 — The front end is total: any text yields a program or a located error.
 Property theorems about M-Text: the string-literal scanners and decoders of `parser.rs` and the
@@ -239,6 +240,75 @@ theorem decodeMulti_total (raw : List Char) :
     `none`, not a crash. -/
 example : multilineDedent ['x'] = none := by
   simp [multilineDedent, normalizeNewlines, splitOnceNl]
+
+theorem SegResult.push_closed {d : Char} {r : SegResult} {t rest : List Char}
+    (h : r.push d = .closed t rest) : ∃ t', r = .closed t' rest := by
+  cases r <;> simp [SegResult.push] at h
+  exact ⟨_, by rw [h.2]⟩
+
+theorem SegResult.push_hole {d : Char} {r : SegResult} {t rest : List Char}
+    (h : r.push d = .hole t rest) : ∃ t', r = .hole t' rest := by
+  cases r <;> simp [SegResult.push] at h
+  exact ⟨_, by rw [h.2]⟩
+
+/-- What `string_segments` hands on (`input.slice(pos + 1..)` after the closing quote, or the input
+    from the `{` of a hole) is a suffix of its input: the slice is in bounds and on a boundary. -/
+theorem stringSegments_suffix_aux : ∀ (n : Nat) (cs : List Char), cs.length ≤ n →
+    (∀ t rest, stringSegments cs = .closed t rest → ∃ pre, cs = pre ++ '"' :: rest) ∧
+    (∀ t rest, stringSegments cs = .hole t rest → ∃ pre rest', cs = pre ++ rest ∧ rest = '{' :: rest')
+  | 0, cs, h => by
+    have : cs = [] := by cases cs <;> simp_all
+    subst this; simp [stringSegments]
+  | n + 1, [], _ => by simp [stringSegments]
+  | n + 1, c :: rest, hlen => by
+    have hl : rest.length ≤ n := by simp at hlen; omega
+    rw [stringSegments_cons]
+    by_cases hq : c = '"'
+    · subst hq
+      exact ⟨fun t r h => by simp at h; exact ⟨[], by simp [h.2]⟩, fun t r h => by simp at h⟩
+    by_cases hb : c = '{'
+    · subst hb
+      exact ⟨fun t r h => by simp at h, fun t r h => by simp at h; exact ⟨[], rest, by simp [← h.2], by simp [← h.2]⟩⟩
+    by_cases hs : c = '\\'
+    · subst hs
+      simp only [hq, hb, ↓reduceIte]
+      cases rest with
+      | nil => simp
+      | cons e rest' =>
+        have hl' : rest'.length ≤ n := by simp at hl; omega
+        have ih := stringSegments_suffix_aux n rest' hl'
+        simp only
+        cases hd : singleEscape e with
+        | none => simp
+        | some d =>
+          simp only
+          constructor
+          · intro t r h
+            obtain ⟨t', ht'⟩ := SegResult.push_closed h
+            obtain ⟨pre, hp⟩ := ih.1 t' r ht'
+            exact ⟨'\\' :: e :: pre, by simp [hp]⟩
+          · intro t r h
+            obtain ⟨t', ht'⟩ := SegResult.push_hole h
+            obtain ⟨pre, r', hp, hr⟩ := ih.2 t' r ht'
+            exact ⟨'\\' :: e :: pre, r', by simp [hp], hr⟩
+    · simp only [hq, hb, hs, ↓reduceIte]
+      have ih := stringSegments_suffix_aux n rest hl
+      constructor
+      · intro t r h
+        obtain ⟨t', ht'⟩ := SegResult.push_closed h
+        obtain ⟨pre, hp⟩ := ih.1 t' r ht'
+        exact ⟨c :: pre, by simp [hp]⟩
+      · intro t r h
+        obtain ⟨t', ht'⟩ := SegResult.push_hole h
+        obtain ⟨pre, r', hp, hr⟩ := ih.2 t' r ht'
+        exact ⟨c :: pre, r', by simp [hp], hr⟩
+
+/-- **segments_rest_in_bounds**: for every input, the remainder `string_segments` continues with
+    (after the closing quote, or at the `{` of a hole) is a suffix of the input. -/
+theorem segments_rest_in_bounds (cs : List Char) :
+    (∀ t rest, stringSegments cs = .closed t rest → ∃ pre, cs = pre ++ '"' :: rest) ∧
+    (∀ t rest, stringSegments cs = .hole t rest → ∃ pre rest', cs = pre ++ rest ∧ rest = '{' :: rest') :=
+  stringSegments_suffix_aux cs.length cs (Nat.le_refl _)
 
 /-! ## Source spans -/
 
